@@ -666,7 +666,9 @@ impl DtlsInner {
                         // restart its message_seq at a value lower than what we expect
                         // (RFC 6347 §4.2.1 says restart at 0, but recv_message_seq may
                         // already be at 1 from the HVR). Sync to the server's counter.
-                        if ctx.post_hvr && is_client {
+                        // Only the ServerHello opens the server's post-cookie flight: a duplicated
+                        // HelloVerifyRequest or a reordered later message must not move the counter.
+                        if ctx.post_hvr && is_client && msg.msg_type == HandshakeType::ServerHello {
                             debug!(
                                 "post-HVR: syncing recv_message_seq from {} to {} (server restart)",
                                 ctx.recv_message_seq, msg.message_seq
@@ -704,7 +706,7 @@ impl DtlsInner {
                         // restart its message_seq at a value different from what we
                         // expect (RFC 6347 says 0, but some implementations use 1).
                         // Sync our counter to the server's actual starting point.
-                        if ctx.post_hvr && is_client {
+                        if ctx.post_hvr && is_client && msg.msg_type == HandshakeType::ServerHello {
                             debug!(
                                 "post-HVR: syncing recv_message_seq from {} to {} (server restart)",
                                 ctx.recv_message_seq, msg.message_seq
